@@ -4,8 +4,9 @@ CONSTANTS MaxMembers = 2
  Ratios = {0, 1, 3}
  InBuf = 2
  OutBuf = 3
-INVARIANT RRejectsDamagedFirst
-INVARIANT RAcceptsFirstMember
+INVARIANT RRejectsDamaged
+INVARIANT RAccepts
+INVARIANT RAcceptsSound
 INVARIANT RReadBack
 PROPERTY Terminates
 CHECK_DEADLOCK FALSE
